@@ -5,7 +5,10 @@ package main
 
 import (
 	"encoding/json"
+	"os"
+	"path/filepath"
 	"strconv"
+	"strings"
 
 	zerr "github.com/DemoHn/Zn/pkg/error"
 	"github.com/DemoHn/Zn/pkg/syntax"
@@ -20,7 +23,7 @@ var strSym = map[string][]rune{
 	"bt": {'`'}, "CR": {'\r'}, "LF": {'\n'}, "TAB": {'\t'}, "SP": {' '},
 	"C": {'C'}, "R": {'R'}, "L": {'L'}, "F": {'F'}, "T": {'T'}, "A": {'A'}, "B": {'B'}, "S": {'S'}, "P": {'P'}, "K": {'K'}, "U": {'U'},
 	"+": {'+'}, "0": {'0'}, "1": {'1'}, "8": {'8'}, "D": {'D'},
-	"x": {'x', '甲', ' ', '，', '1', 'c', '😀', '{', '：', '；'},
+	"x": {'x', '甲', ' ', '，', '1', 'c', '😀', '{', '：', '；', 0xFEFF},
 }
 
 type strCase struct {
@@ -28,6 +31,7 @@ type strCase struct {
 	Val  []json.RawMessage `json:"val"`
 	Reps []int             `json:"reps"`
 	E2E  bool              `json:"e2e"`
+	Pads []int             `json:"pads"` // end to end through a FILE: the body is preceded (inside the literal) by this many ASCII letters
 }
 
 func symRune(s string, rep, i int) rune {
@@ -102,6 +106,30 @@ func handleStrLit(raw json.RawMessage) interface{} {
 			} else {
 				r["e2e_msg"] = lastLine(o.Msg)
 			}
+		}
+		// long literals read from a file: the same body pushed to (and across) the 4096-byte read blocks
+		for _, pad := range c.Pads {
+			padding := strings.Repeat("p", pad)
+			text := "输出" + string(src[:1]) + padding + string(src[1:]) + "\n"
+			dir, derr := os.MkdirTemp(os.Getenv("VERIF_SCRATCH"), "strlit-")
+			if derr != nil {
+				continue
+			}
+			path := filepath.Join(dir, "长文.zn")
+			os.WriteFile(path, []byte(text), 0644)
+			o := zn.RunFile(path, nil)
+			os.RemoveAll(dir)
+			fr := map[string]interface{}{"pad": pad, "obs": o.Obs}
+			if o.Obs == "value" && o.Val["t"] == "str" {
+				got, _ := o.Val["v"].(string)
+				fr["eq"] = got == padding+string(want)
+				if got != padding+string(want) && len(got) >= pad {
+					fr["got_tail"] = got[pad:]
+				}
+			} else {
+				fr["msg"] = lastLine(o.Msg)
+			}
+			r["file_"+strconv.Itoa(pad)] = fr
 		}
 		runs = append(runs, r)
 	}
